@@ -387,6 +387,32 @@ func (e *Engine) readFork(s *State, f *Frame, bufID int, need *Term, onFull func
 	})
 }
 
+// readFork3: like readFork, but the short case is split into "nothing there" (io.EOF) and "some but not
+// enough" (io.ErrUnexpectedEOF), as io.ReadFull and binary.Read distinguish them.
+func (e *Engine) readFork3(s *State, f *Frame, bufID int, need *Term, onFull func(st *State, data *Bytes), onShort func(st *State, n *Term, data *Bytes, none bool)) []*State {
+	o := s.heap[bufID]
+	un := unreadLen(o)
+	full := Le(need, un, true)
+	none := And(Not(full), Eq(un, CI(0)))
+	part := And(Not(full), Not(Eq(un, CI(0))))
+	return e.forkN(s, []*Term{full, none, part}, func(st *State, i int) {
+		b := st.heap[bufID]
+		switch i {
+		case 0:
+			data := SliceBytes(b.B, b.R, Add(b.R, need))
+			b.R = Add(b.R, need)
+			onFull(st, data)
+		case 1:
+			onShort(st, CI(0), EmptyBytes(), true)
+		case 2:
+			n := unreadLen(b)
+			data := unread(b)
+			b.R = b.B.Len
+			onShort(st, n, data, false)
+		}
+	})
+}
+
 func scalarBytes(t *Term, little bool) []*Term {
 	if t.W == 0 { // bool
 		return []*Term{Ite(t, C(8, 1), C(8, 0))}
@@ -470,6 +496,25 @@ func (e *Engine) dispatch(s *State, f *Frame, fn *ssa.Function, args []Value, bi
 		e.access(s, id, true, site)
 		o.B = Concat2(o.B, VecBytes([]*Term{args[1].(*Term)}))
 		set(nilErr)
+	case "(*bytes.Buffer).WriteRune":
+		o, id := bufObj(s, args[0])
+		if o == nil {
+			s.panicd = "nil *bytes.Buffer at " + site
+			return nil
+		}
+		e.access(s, id, true, site)
+		r := args[1].(*Term)
+		if r.IsConst() {
+			enc := utf8Rune(r)
+			o.B = Concat2(o.B, enc)
+			set(TupleV{enc.Len, nilErr})
+			return nil
+		}
+		return e.forkRune(s, r, site, func(st *State, b *Bytes) {
+			ob := st.heap[id]
+			ob.B = Concat2(ob.B, b)
+			setRes(st, x, TupleV{b.Len, nilErr})
+		})
 	case "(*bytes.Buffer).Len":
 		o, _ := bufObj(s, args[0])
 		if o == nil {
@@ -573,19 +618,22 @@ func (e *Engine) dispatch(s *State, f *Frame, fn *ssa.Function, args []Value, bi
 			panic(engineUnsupported("io.ReadFull on a non-buffer reader"))
 		}
 		dst := args[1].(*SliceV)
-		return e.readFork(s, f, id, dst.Len, func(st *State, data *Bytes) {
+		return e.readFork3(s, f, id, dst.Len, func(st *State, data *Bytes) {
 			if dst.Obj != 0 {
 				d := st.heap[dst.Obj]
 				d.B = OverwriteBytes(d.B, dst.Off, data)
 			}
 			setRes(st, x, TupleV{dst.Len, nilErr})
-		}, func(st *State, n *Term, data *Bytes) {
-			if dst.Obj != 0 {
+		}, func(st *State, n *Term, data *Bytes, none bool) {
+			if dst.Obj != 0 && !none {
 				d := st.heap[dst.Obj]
 				d.B = OverwriteBytes(d.B, dst.Off, data)
 			}
-			// (0, EOF) if nothing was read, (n, ErrUnexpectedEOF) otherwise: both are non-nil errors
-			setRes(st, x, TupleV{n, errUEOF})
+			if none {
+				setRes(st, x, TupleV{CI(0), errEOF})
+			} else {
+				setRes(st, x, TupleV{n, errUEOF})
+			}
 		})
 	case "bytes.NewBuffer":
 		sl := args[0].(*SliceV)
@@ -674,6 +722,9 @@ func (e *Engine) dispatch(s *State, f *Frame, fn *ssa.Function, args []Value, bi
 	case "unsafe.String":
 		panic(engineUnsupported("unsafe.String as a function"))
 	default:
+		if strings.HasPrefix(name, "(*bytes.Buffer).") || strings.HasPrefix(name, "(*bytes.Reader).") || strings.HasPrefix(name, "(*strings.Builder).") {
+			panic(engineUnsupported("no contract for " + name))
+		}
 		if fn.Blocks == nil {
 			return e.unknownCallee(s, f, fn, args, x, site)
 		}
@@ -902,7 +953,7 @@ func (e *Engine) binaryRead(s *State, f *Frame, args []Value, x *ssa.Call, site 
 			if c.W == 0 {
 				n = 1
 			}
-			return e.readFork(s, f, id, CI(int64(n)), func(st *State, data *Bytes) {
+			return e.readFork3(s, f, id, CI(int64(n)), func(st *State, data *Bytes) {
 				bs := make([]*Term, n)
 				for i := range bs {
 					bs[i] = data.At(CI(int64(i)))
@@ -915,8 +966,12 @@ func (e *Engine) binaryRead(s *State, f *Frame, args []Value, x *ssa.Call, site 
 				}
 				e.store(st, v, val, site)
 				setRes(st, x, nilErr)
-			}, func(st *State, m *Term, data *Bytes) {
-				setRes(st, x, errUEOF) // io.EOF if nothing was read, ErrUnexpectedEOF otherwise: non-nil either way
+			}, func(st *State, m *Term, data *Bytes, none bool) {
+				if none {
+					setRes(st, x, errEOF)
+				} else {
+					setRes(st, x, errUEOF)
+				}
 			})
 		case *ArrayV:
 			// array of scalars
